@@ -13,6 +13,8 @@ use std::time::{Duration, Instant};
 
 use serde_json::{Value, json};
 
+pub mod strace;
+
 pub fn ls_binary() -> PathBuf {
     PathBuf::from(
         std::env::var("HV_LS_BIN").unwrap_or_else(|_| "/verif/target/ls/release/harper-ls".into()),
@@ -126,7 +128,7 @@ impl Drop for Sandbox {
 
 pub struct Server {
     child: Child,
-    stdin: ChildStdin,
+    stdin: Option<ChildStdin>,
     rx: Receiver<Value>,
     next_id: i64,
     /// answer to workspace/configuration
@@ -209,7 +211,7 @@ impl Server {
         });
         let mut s = Server {
             child,
-            stdin,
+            stdin: Some(stdin),
             rx,
             next_id: 1,
             settings,
@@ -238,9 +240,12 @@ impl Server {
     fn send(&mut self, v: &Value) -> Result<(), LspError> {
         let body = v.to_string();
         let msg = format!("Content-Length: {}\r\n\r\n{}", body.len(), body);
-        self.stdin
+        let Some(stdin) = self.stdin.as_mut() else {
+            return Err(LspError::Died("stdin already closed".into()));
+        };
+        stdin
             .write_all(msg.as_bytes())
-            .and_then(|_| self.stdin.flush())
+            .and_then(|_| stdin.flush())
             .map_err(|e| LspError::Died(format!("write failed: {e}")))
     }
 
@@ -415,6 +420,17 @@ impl Server {
         self.wait_response(id, Duration::from_secs(60))
     }
 
+    /// executeCommand for commands that re-check a document: the response and the publication
+    /// travel on different internal channels, so wait for both.
+    pub fn execute_and_publish(&mut self, command: &str, args: Value, uri: &str) -> Result<Vec<Diag>, LspError> {
+        let before = self.publications_for(uri);
+        self.execute(command, args)?;
+        self.pump_until(Duration::from_secs(30), "publication after executeCommand", |s| {
+            s.publications_for(uri) > before
+        })?;
+        Ok(self.last_publication(uri).cloned().unwrap_or_default())
+    }
+
     pub fn code_actions(&mut self, uri: &str, start: (u32, u32), end: (u32, u32)) -> Result<Value, LspError> {
         let id = self.request(
             "textDocument/codeAction",
@@ -429,6 +445,8 @@ impl Server {
         let id = self.request("shutdown", Value::Null)?;
         let _ = self.wait_response(id, Duration::from_secs(30));
         let _ = self.notify("exit", Value::Null);
+        // the server's read loop ends when its stdin closes
+        self.stdin = None;
         let t0 = Instant::now();
         while t0.elapsed() < Duration::from_secs(10) {
             if let Ok(Some(_)) = self.child.try_wait() {
